@@ -23,7 +23,7 @@ import (
 // is materialised and the real store is opened on it.
 
 func init() {
-	register(&simcore.Check{ID: "C03", Bubble: true, Body: c03Body})
+	register(&simcore.Check{ID: "C03", Bubble: true, Liveness: true, Body: c03Body})
 }
 
 func c03Body(r *simcore.Run) {
